@@ -1,7 +1,7 @@
 """C08  Validation enforces declared attribute constraints."""
 import ast
 from ..loader import calls_in, dotted, walk_no_nested, norm, head, parents, stmts_of
-from ..q import nodes_calling
+from ..q import nodes_calling, reaching_defs, value_of_def
 
 EXPLANATION = """
 Static clauses decided (necessary conditions of C08):
@@ -98,8 +98,30 @@ def truth_uses(fn_node):
     return res
 
 
+def decimal_norm_rule(ctx, prefix='C08-NORM'):
+    """DecimalConverter.validate brings every accepted value to the scale the column stores (quantize), whatever the type it arrived in: the value
+    kept in the session (and used as identity-map / unique-index key) is then equal to what the database hands back.  Scenario: a scale is
+    declared and the value is finite; the type tests are left open -- every path to a normal return passes quantize()."""
+    from ..typestate import scenario_edges
+    repo, cg = ctx.repo, ctx.cg
+    f = repo.fn('pony.orm.dbapiprovider', 'DecimalConverter.validate'); g = cg.cfg(f)
+    q = [x for x in g.nodes if x.kind == 'stmt' and x.ast is not None and any(isinstance(c.func, ast.Attribute) and c.func.attr == 'quantize' for c in x.calls())]
+    def atom(text, node):
+        t = text.replace(' ', '')
+        if t.endswith('expisnotNone') or t.endswith('.expisnotNone'): return True
+        if t.endswith('expisNone'): return False
+        if t.endswith('.is_finite()'): return True
+        return None
+    eo = scenario_edges(g, f.node, atom)
+    ok = bool(q) and g.must_pass_after(g.entry, q, exits=[g.exit], edge_ok=eo)
+    ctx.ob(prefix + '.decimal-normalised-to-the-stored-scale-for-every-input-type', f, q[0].ast if q else f.node, ok,
+           '' if ok else 'DecimalConverter.validate can return a finite value of an attribute with a declared scale without quantize(): e.g. a Decimal with more fractional '
+           'digits than the scale is kept as given, the database stores the rounded value, and the identity map / unique index holds a key that never matches the row')
+
+
 def run(ctx):
     repo, cg = ctx.repo, ctx.cg
+    decimal_norm_rule(ctx)
     repo.mod('pony.orm.dbapiprovider')
     mods = [m for m in repo.rule_modules() if any(m.rel.startswith(s) for s in SCOPE_QUICK)]
     conv = repo.cls('pony.orm.dbapiprovider', 'Converter')
@@ -250,9 +272,56 @@ def run(ctx):
     txt = [norm(t.ast) for t in cg.cfg(rv).nodes if t.kind == 'test']
     ok = any("val == ''" in t for t in txt) and any('val is None' in t for t in txt)
     ctx.ob('C08-CHECK.required-rejects-empty', rv, rv.node, ok, '' if ok else 'Required.validate tests: %s' % txt)
+    # ---------------------------------------------------------------- ENTRY
+    # "the same holds for creation, assignment, set() and lookups by attribute value": in every entry point that receives program values the value
+    # that travels on is the result of attr.validate(...) on every path -- no definition of the variable other than a validate call reaches a later
+    # use (a conditional `if changed: val = attr.validate(val)` lets the unvalidated loop variable through)
+    ENTRY = ['Attribute.__set__', 'Entity.__init__', 'Entity._keyargs_to_avdicts_', 'EntityMeta._find_one_', 'Set.__set__', 'SetInstance.add', 'SetInstance.remove', 'Query._apply_kwargs']
+    nentry = 0
+    for qual in ENTRY:
+        f = repo.fn_opt('pony.orm.core', qual)
+        ctx.need(f is not None, 'C08: entry point %s not found' % qual)
+        g = cg.cfg(f)
+        vnodes = [x for x in g.nodes if x.kind == 'stmt' and isinstance(x.ast, ast.Assign) and isinstance(x.ast.value, ast.Call)
+                  and isinstance(x.ast.value.func, ast.Attribute) and x.ast.value.func.attr == 'validate']
+        ctx.need(vnodes, 'C08: %s no longer validates the values it receives' % qual)
+        for v in vnodes:
+            nentry += 1
+            tg = x_ = v.ast.targets[0]
+            if not isinstance(tg, ast.Name):
+                ctx.ob('C08-ENTRY.value-that-travels-on-is-the-validated-one', f, v.ast, True, 'validated value stored directly', node=v.ast, nontrivial=False); continue
+            name = tg.id
+            bad = []
+            for u in g.nodes:
+                if u.ast is None or u is v or u.id not in g.reach([v], include_src=False): continue
+                root = u.ast.test if u.kind == 'test' and hasattr(u.ast, 'test') else u.ast
+                if u.kind == 'iter': root = u.ast.iter
+                if u.kind == 'stmt' and isinstance(u.ast, (ast.Assign, ast.AugAssign, ast.AnnAssign, ast.Expr, ast.Return)): root = u.ast.value if getattr(u.ast, 'value', None) is not None else u.ast
+                if not any(isinstance(x, ast.Name) and x.id == name and isinstance(x.ctx, ast.Load) for x in ast.walk(root)): continue
+                seen_d = set()
+                def unvalidated(at):
+                    # definitions reaching `at` that are neither a validate() call nor derived from an already validated value of the same name
+                    out = []
+                    for d in reaching_defs(g, at, name, with_params=True, with_aug=False):   # `items -= removed` keeps a validated value validated
+                        if d.id in seen_d: continue
+                        seen_d.add(d.id)
+                        val = value_of_def(d, name)
+                        if isinstance(val, ast.Call) and isinstance(val.func, ast.Attribute) and val.func.attr == 'validate': continue
+                        if val is not None and any(isinstance(x, ast.Name) and x.id == name for x in ast.walk(val)): out += unvalidated(d); continue
+                        out.append(d)
+                    return out
+                bad += [(u, d) for d in unvalidated(u)]
+            ok = not bad
+            ctx.ob('C08-ENTRY.value-that-travels-on-is-the-validated-one', f, v.ast, ok,
+                   '' if ok else '`%s` at line %d can still hold the value bound at line %d, which did not pass through validate(): a path around `%s` lets an unchecked value be stored'
+                   % (name, bad[0][0].lineno, getattr(bad[0][1], 'lineno', 0) or f.node.lineno, norm(v.ast)[:70]), node=v.ast)
+    ctx.floor('C08-ENTRY', nentry, 6, 'validate() results followed in the entry points')
 
 
 MUTANTS = [
+    dict(id='C08-norm1', file='pony/orm/dbapiprovider.py', fn='DecimalConverter.validate', old="        if exp is not None and val.is_finite(): val = val.quantize(exp)", new="        if exp is not None and val.is_finite() and val.as_tuple().exponent < -converter.scale - 10: val = val.quantize(exp)", expect='C08-NORM'),
+    dict(id='C08-entry1', file='pony/orm/core.py', fn='Entity._keyargs_to_avdicts_', old="            new_val = attr.validate(new_val, obj, from_db=False)", new="            if new_val is not None: new_val = attr.validate(new_val, obj, from_db=False)", expect='C08-ENTRY'),
+    dict(id='C08-entry2', file='pony/orm/core.py', fn='SetInstance.add', old="            new_items = attr.validate(new_items, obj)\n            if not new_items: return", new="            if not isinstance(new_items, set): new_items = attr.validate(new_items, obj)\n            if not new_items: return", expect='C08-ENTRY'),
     dict(id='C08-sv1', file='pony/orm/dbapiprovider.py', fn='DecimalConverter.validate',
          old="                             % (val, converter.attr, converter.max_val))\n        return val",
          new="                             % (val, converter.attr, converter.max_val))\n        if converter.exp is not None and val.is_finite(): val = val.quantize(converter.exp)\n        return val", expect='C08-SAMEVAL'),
